@@ -47,7 +47,7 @@ func Register(reg *kernel.Registry) {
 	reg.Serves["C13"] = append(reg.Serves["C13"], "tm", "bsc", "eth")
 	reg.Serves["C19"] = append(reg.Serves["C19"], "tm", "bsc", "eth")
 	reg.Serves["C14"] = append(reg.Serves["C14"], "tm", "bsc", "eth", "lifecycle") // block-stream replicas of every world
-	reg.Serves["C05"] = append(reg.Serves["C05"], "bsc")                           // acknowledgements proven by storage proofs
+	reg.Serves["C05"] = append(reg.Serves["C05"], "bsc", "eth")                    // acknowledgements proven by storage proofs
 	reg.Serves["C02"] = append(reg.Serves["C02"], "bsc", "eth")                    // EVM-proved receives: only at heights the installed client vouches for
 	reg.Serves["C01"] = append(reg.Serves["C01"], "bsc", "eth")                    // counterparty-chosen sequences over the whole uint64 range, re-delivered receives
 	reg.Assumptions["C07"] = []string{
